@@ -125,7 +125,7 @@ pub fn judge(case: &Case, acc: &mut Acc) {
 
 pub fn run(ctx: &Ctx) -> Report {
     let lens: [usize; 5] = [0, 1, 2, 3, 5];
-    let max_stream = ctx.tier.pick(15usize, 21usize);
+    let max_stream = ctx.tier.pick(16usize, 21usize);
     // frame sequences of <= 3 frames
     let mut seqs: Vec<Vec<Vec<u8>>> = vec![vec![]];
     let mut level: Vec<Vec<Vec<u8>>> = vec![vec![]];
